@@ -53,10 +53,11 @@ type GhostVar struct {
 }
 
 type GhostHook struct {
-	Where  string // "call", "loopbegin", "loopend", "entry"
-	N      int
-	Callee string
-	Stmts  *Clause
+	Where    string // "call", "loopbegin", "loopend", "entry"
+	N        int
+	Callee   string
+	Stmts    *Clause
+	Optional bool // `precall?` / `call?`: no error when the function has no such call (the hook then never fires)
 }
 
 type Contract struct {
@@ -400,8 +401,9 @@ func ParseContracts(src string) *ContractFile {
 				stm := &Clause{Kind: "ghoststmt", Text: strings.TrimSpace(rest[k+1:]), Line: ln}
 				h := &GhostHook{Stmts: stm}
 				switch {
-				case len(head) == 4 && (head[1] == "call" || head[1] == "precall"):
-					h.Where = head[1]
+				case len(head) == 4 && (head[1] == "call" || head[1] == "precall" || head[1] == "call?" || head[1] == "precall?"):
+					h.Where = strings.TrimSuffix(head[1], "?")
+					h.Optional = strings.HasSuffix(head[1], "?")
 					h.N, _ = strconv.Atoi(head[2])
 					h.Callee = head[3]
 				case len(head) == 4 && head[1] == "loop":
@@ -633,4 +635,55 @@ func rewriteToks(ts []tok) (string, error) {
 		sb.WriteString(ts[i].lit)
 	}
 	return sb.String(), nil
+}
+
+// renameIdents applies a local-variable renaming to every clause of the contract.
+func (c *Contract) renameIdents(m map[string]string) {
+	do := func(cl *Clause) {
+		if cl != nil {
+			cl.Text = renameIdents(cl.Text, m)
+		}
+	}
+	for _, cl := range c.Requires {
+		do(cl)
+	}
+	for _, cl := range c.Ensures {
+		do(cl)
+	}
+	for _, cl := range c.Goals {
+		do(cl)
+	}
+	for _, ex := range c.Exempts {
+		do(ex.Clause)
+	}
+	for _, gv := range c.GhostVars {
+		do(gv.Init)
+	}
+	for _, h := range c.Hooks {
+		do(h.Stmts)
+	}
+	for _, lc := range c.Loops {
+		for _, cl := range lc.Invariants {
+			do(cl)
+		}
+		do(lc.Decreases)
+	}
+	for _, cc := range c.Closures {
+		for _, cl := range cc.Requires {
+			do(cl)
+		}
+		for _, cl := range cc.Ensures {
+			do(cl)
+		}
+	}
+	if c.Cost != nil {
+		do(c.Cost)
+	}
+	for k, ps := range c.AssignsAt {
+		for i, p := range ps {
+			if nn, ok := m[p]; ok {
+				c.AssignsAt[k][i] = nn
+			}
+		}
+	}
 }
